@@ -229,6 +229,65 @@ def replay_prims(rep):
     rep.evaluations += n
 
 
+def replay_header_blocks(rep):
+    """specification -> code for the header section dispatcher (HeaderBlock.tla): blocks over a pool of field lines"""
+    from cryptoparser.httpx import header as H
+    variant = H.HttpHeaderFieldParsedVariant._get_variants()          # pylint: disable=protected-access
+    known = sorted(n.value.code for n in variant)
+    pool = []
+    picked = 0
+    for name_member, classes in variant.items():
+        cls = classes[0]
+        vcls = cls._get_value_class()                                   # pylint: disable=protected-access
+        name = name_member.value.normalized_name
+        good = None
+        for cand in ('1', 'nosniff', 'DENY', 'no-cache', 'max-age=1', 'text/html', 'abc'):
+            if call(vcls.parse_exact_size, cand.encode())[0] == 'ok' and call(vcls.parse_exact_size, b'\x7f?')[0] != 'ok':
+                good = cand
+                break
+        if good is None:
+            continue
+        picked += 1
+        for spelled in (name, name.upper(), name.lower(), name[:-1], name + 'x', name.split('-')[-1] if '-' in name else name[1:]):
+            for value, ok in ((good, True), ('\x7f?', False)):
+                pool.append({'name': list(spelled.encode()), 'value': list(value.encode()), 'ok': ok})
+        if picked == 2:
+            break
+    pool.append({'name': list(b'X-Unknown'), 'value': list(b'some value'), 'ok': True})
+    inp = write_ndjson(os.path.join(rep.build, 'header_pool.ndjson'), [{'pool': pool, 'known': [list(k.encode()) for k in known]}])
+    out = os.path.join(rep.build, 'header_blocks.ndjson')
+    res = tlc.require_ok(tlc.run('Gen_HeaderBlock', workers=1, env={'TRACE_FILE': inp, 'OUT_FILE': out}, timeout=900), 'Gen_HeaderBlock')
+    rep.add_tlc(res, 'Gen_HeaderBlock (header sections of <= 3 lines over known / respelled / fragment / unknown names: text and expected fields)')
+    n = 0
+    for line in open(out):
+        c = json.loads(line)
+        n += 1
+        data = bytes(c['text'])
+        o, fields, _ = call(H.HttpHeaderFields.parse_exact_size, data)
+        got = None
+        if o == 'ok':
+            got = []
+            for item in fields:
+                if isinstance(item, H.HttpHeaderFieldUnparsed):
+                    got.append({'typed': False, 'name': list(item.name.lower().encode()), 'value': list(item.value.encode())})
+                else:
+                    co = call(lambda x: bytes(x.compose()), item)
+                    text = co[1] if co[0] == 'ok' else b': '
+                    got.append({'typed': True, 'name': list(item.get_header_field_name().value.code.encode()),
+                                'value': list(text.split(b': ', 1)[1] if b': ' in text else b'')})
+        if got != c['expected']:
+            names = [bytes(e['name']).decode() for e in c['expected']]
+            what = 'rejected' if got is None else 'count' if len(got) != len(c['expected']) else \
+                'taken-for-a-known-field' if any(g['typed'] and not e['typed'] for g, e in zip(got, c['expected'])) else \
+                'known-field-not-recognised' if any(e['typed'] and not g['typed'] for g, e in zip(got, c['expected'])) else 'name-or-value-changed'
+            rep.violation('HttpHeaderFields|header-section-differs-from-specification|%s' % what,
+                          'a header section parses to other fields than HeaderBlock.tla says (%s): %r' % (what, data[:120]),
+                          {'text': data.decode('latin-1'), 'expected': c['expected'], 'implementation': got, 'names': names})
+    rep.extra['header_sections_replayed'] = n
+    rep.traces += n
+    rep.evaluations += n
+
+
 def fragment_block():
     """a header block of fields the library does NOT know whose names are fragments of names it knows (Cookie, Transport-Security,
     Policy, Options, ...), each with a value its longer namesake accepts: they stay unknown fields under their own name"""
@@ -264,6 +323,7 @@ def run(rep):
     from .. import corpus
     replay_engine(rep)
     replay_prims(rep)
+    replay_header_blocks(rep)
     thorough = rep.tier == 'thorough'
     cases = []
     meta = []
